@@ -179,6 +179,7 @@ package main
 //@   before call processAttack: assert [results-written-by-the-library-encoder-itself] ref(arg2) == libenc
 //@   forbid [only-the-signal-pump-stops-the-attack] call Stop
 //@   forbid [targets-are-drawn-only-by-the-attack-and-the-eager-reader] call tr
+//@   forbid [targets-are-decoded-only-by-the-attack-and-the-eager-reader] call Decode
 //@   ghost dialWrapped bool = false
 //@   at call UnixSocket: ghost dialWrapped = true
 //@   at call DNSCaching: ghost dialWrapped = true
